@@ -811,3 +811,70 @@ class UBits(Bits):
                     raise Unsupported('shift count not below the width of the operand')
                 return self._trunc(a[kk:] + (ZERO,) * kk, n)
         return Bits._eval(self, nid)
+
+
+# ------------------------------------------------------------------------------------------------ range-for loops
+
+def range_for_loops(fn):
+    """[(loop record, condition block, range init expr id, loop variable decl id)] for every range-based for of fn."""
+    out = []
+    conds = [b for b in fn.blocks.values() if b.get('termcls') == 'CXXForRangeStmt' and len(b['succs']) == 2]
+    for l in fn.loops:
+        if l.get('cls') != 'CXXForRangeStmt':
+            continue
+        cb = None
+        for b in conds:
+            t = b.get('term')
+            c = b.get('cond')
+            probe = c if isinstance(c, int) else t
+            if isinstance(probe, int) and fn.in_range(probe, l['b'], l['e']):
+                if cb is None or fn.nodes[probe].get('o', 0) < fn.nodes[cb_probe].get('o', 0):
+                    cb, cb_probe = b, probe
+        rng = None
+        var = None
+        for n in fn.all_nodes():
+            if n.get('k') == 'decl' and fn.in_range(n['id'], l['b'], l['e']):
+                for v in n['vars']:
+                    if v['name'].startswith('__range') and isinstance(v.get('init'), int) and rng is None:
+                        rng = v['init']
+                    elif not v['name'].startswith('__') and isinstance(v.get('init'), int) and var is None:
+                        x = scn(fn, v['init'])
+                        if x is not None and ((x.get('k') == 'call' and x.get('op') == '*') or (x.get('k') == 'unop' and x.get('op') == '*')):
+                            var = v['d']
+        out.append((l, cb, rng, var))
+    return out
+
+
+def loop_skips(fn, cond_blk, barrier_ids):
+    """an iteration (from the body start back to the loop test) can avoid every barrier element."""
+    seen = set()
+    work = [cond_blk['succs'][0]]
+    while work:
+        b = work.pop()
+        if b is None or b in seen:
+            continue
+        seen.add(b)
+        if b == cond_blk['id']:
+            return True
+        if any(e in barrier_ids for e in fn.blocks[b]['elems']):
+            continue
+        work.extend(fn.succs(b))
+    return False
+
+
+def loop_leaks(fn, cond_blk):
+    """the loop body can reach the function exit without going through the loop test again (break / return)."""
+    thr = throw_ids(fn)
+    seen = set()
+    work = [cond_blk['succs'][0]]
+    while work:
+        b = work.pop()
+        if b is None or b in seen or b == cond_blk['id']:
+            continue
+        seen.add(b)
+        if any(e in thr for e in fn.blocks[b]['elems']):
+            continue
+        if b == fn.exit:
+            return True
+        work.extend(fn.succs(b))
+    return False
